@@ -124,6 +124,10 @@ def run(F, R):
     # wrap-safe counters and the folded completion test (C03.E5 / E9)
     from .C03 import wrap_rule
     wrap_rule(F, R, 'S9')
+    # S10: the length of a received chunk is the one the device recorded for that completion: id and length are read from the used
+    # ring slot of the trusted index, and a refused poll consumes nothing (C03.E1 / E2)
+    from .C03 import pop_rule
+    pop_rule(F, R, 'S10')
 
 
 def norm_slice(t):
